@@ -35,6 +35,25 @@ def check(ctx):
             ctx.check(q.split(":")[1] in allowed, "T4-ixes", node, "%s of .%s in %s" % (kind, attr, q.split(":")[1]),
                       "the connection table is modified outside the accept/handshake/remove functions")
     ctx.floor("T4-ixes:writers", k, 5)
+    # each accepted connection is entered (after the stale check) before the next one is taken off the queue: two accepts from
+    # one address in the same pass must meet in the table, where the first is found and shut down
+    ctx.rule("T2-same-iteration", "Server.serviceAxes: every (cs, ca) popped from .axes reaches `self.ixes[ca] = <its incomer>` in the same iteration")
+    fa = ctx.cls("tcp.serving", "Server").own_method("serviceAxes")
+    VA = FuncView(ctx, fa)
+    pops = VA.need(VA.call_nodes("self.axes.popleft"), "self.axes.popleft() in serviceAxes")
+    sts = [n for n in VA.cfg.nodes if any(isinstance(x, ast.Subscript) and isinstance(x.ctx, ast.Store) and src(VA.sym(x.value, n)) == "self.ixes"
+                                          for x in VA.cfg.walk_node(n))]
+    loops = [w for w in VA.cfg.nodes if w.kind in ("test", "for") and isinstance(w.ast, (ast.While, ast.For)) and
+             id(pops[0].ast) in {id(x) for x in ast.walk(w.ast)}]
+    okit = bool(sts) and bool(loops)
+    if okit:
+        w = max(loops, key=lambda x: getattr(x.ast, "lineno", 0))
+        inside = {id(x) for x in ast.walk(w.ast)}
+        okit = all(id(s_.ast) in inside for s_ in sts) and \
+            w.id not in VA.cfg.reachable(pops[0].id, removed_nodes=[s_.id for s_ in sts], labels_block=("exc",))
+    ctx.check(okit, "T2-same-iteration", fa, "serviceAxes enters each accepted connection before popping the next",
+              "collecting the new connections first (e.g. in a dict keyed by address) and entering them afterwards loses all but the "
+              "last of several accepts from one address in one pass: the earlier sockets are never tabled, shut down or closed")
     for cn, fname, var in (("Server", "serviceAxes", "incomer"), ("ServerTls", "serviceCxes", "cx")):
         f = ctx.cls("tcp.serving", cn).own_method(fname)
         V = FuncView(ctx, f)
